@@ -83,3 +83,23 @@ func verifLemmaClearOrderB(v *SchemaValidations) {
 	v.ClearStringValidations()
 	v.ClearNumberValidations()
 }
+
+// ---- rebase law (C02, C03, C09): a canonical $ref that is kept in the output is rewritten relative to the
+// root document; reading the rewritten $ref from the root's location must designate the same target again.
+
+func verifLemmaRebase(c string, rootBase string) string {
+	ref := MustCreateRef(c)
+	d := denormalizeRef(&ref, rootBase, "")
+	return normalizeURI(d.String(), rootBase)
+}
+
+func verifLemmaRefString(c string) string {
+	ref := MustCreateRef(c)
+	return ref.String()
+}
+
+func verifLemmaDenorm(c string, rootBase string) string {
+	ref := MustCreateRef(c)
+	d := denormalizeRef(&ref, rootBase, "")
+	return d.String()
+}
